@@ -159,6 +159,11 @@ def _optimize_contractions(relevant_obj_names: tuple[str],
         # remove the contracted names and indices
         remaining_pos = [pos for pos in range(len(relevant_obj_names))
                          if pos not in group]
+        # the contraction is only valid if none of the contracted indices
+        # appears on any of the remaining objects
+        if any(idx in relevant_obj_indices[pos]
+               for idx in contraction.contracted for pos in remaining_pos):
+            continue
         remaining_names = (contraction.contraction_name,
                            *(relevant_obj_names[pos] for pos in remaining_pos))
         remaining_indices = (contraction.target, *(relevant_obj_indices[pos]
